@@ -173,6 +173,7 @@ def tasks(tier):
     ts = [("lists01", i) for i in range(-1, len(MENU))]
     for i in range(len(MENU)):
         ts.append(("lists2", i, tier))
+    ts.append(("xyx",))
     if tier == "thorough":
         for i in range(len(SUBMENU)):
             ts.append(("lists3", i))
@@ -204,6 +205,17 @@ def run_task(task, acc):
         def gen():
             for b in second:
                 yield from prod_cases([a, b])
+        run_cases(acc, gen(), check_case)
+    elif kind == "xyx":
+        # three members whose time kinds interleave (X, Y, X) with different verdicts: configuration order must win
+        xs = [MENU[i] for i in (0, 15, 30, 45, 75, 105)]   # one member per time kind, value set 0 / 1 alternately
+        ys = [MENU[i] for i in (17, 32, 62, 92, 122)]
+        def gen():
+            for a in xs:
+                for b in ys:
+                    for c in MENU:
+                        if (c.get("period") or "abs") == (a.get("period") or "abs") and (b.get("period") or "abs") != (a.get("period") or "abs"):
+                            yield dict(members=[a, b, c], order="stride")
         run_cases(acc, gen(), check_case)
     elif kind == "lists3":
         a = SUBMENU[task[1]]
